@@ -263,7 +263,30 @@ def o_dtype(inp):
     return None
 
 
-ORACLES = {'route': o_route, 'hom': o_hom, 'rotate': o_rotate, 'batch': o_batch, 'dtype': o_dtype}
+def o_state(inp):
+    """routes that multiply or rotate must see ONE quaternion per object: after normalize(), for either storage order
+    of either operand, and across repeated calls of the free functions (shared with C09)"""
+    from . import C09
+    r = C09.o_state(inp)
+    if r is None:
+        r = C09.o_operands({'p': inp['p'], 'q': inp['q']})
+    if r is None:
+        import ahrs
+        from ahrs.common import orientation as O
+        q, v = np.array(inp['q'], float), np.array(inp['r'], float)[1:]
+        o = ahrs.Quaternion(q, versor=False)
+        o.normalize()
+        u = q / np.linalg.norm(q)
+        got = np.asarray(O.q_rot(o, v), float)
+        if cm.maxabs(got, cm.Rspec(u).T @ v) > 1e-11 * max(1.0, float(np.max(np.abs(v)))):
+            return {'tag': 'normalize/then-q_rot', 'observed': got, 'expected': cm.Rspec(u).T @ v}
+        got = np.asarray(O.q2R(np.asarray(o)), float)
+        if cm.maxabs(got, cm.Rspec(u)) > TOL:
+            return {'tag': 'normalize/then-q2R', 'observed': got, 'expected': cm.Rspec(u)}
+    return r
+
+
+ORACLES = {'route': o_route, 'hom': o_hom, 'rotate': o_rotate, 'batch': o_batch, 'dtype': o_dtype, 'state': o_state}
 
 
 def search(ctx, scale):
@@ -282,6 +305,10 @@ def search(ctx, scale):
         v = ctx.rng.standard_normal(3) * 10 ** ctx.rng.uniform(-3, 3)
         inp = {'q': q.tolist(), 'v': v.tolist()}
         ctx.check('rotate', inp, cm_call(o_rotate, inp), nontrivial_key=(tuple(np.round(q, 6)), tuple(np.round(v, 6))))
+    for i in range(8 * scale):
+        s3 = 1.0 if i % 2 else 10 ** ctx.rng.uniform(-2, 2)
+        inp = {'q': (qs[(3 * i + 1) % len(qs)][1] * s3).tolist(), 'p': qs[(5 * i + 2) % len(qs)][1].tolist(), 'r': qs[(7 * i + 3) % len(qs)][1].tolist()}
+        ctx.check('state', inp, cm_call(o_state, inp), nontrivial_key=('state', i))
     # batches of every small N
     for N in (1, 2, 3, 4, 5, 7):
         for rep in range(2 * scale):
